@@ -185,6 +185,10 @@ type BatchCase struct {
 	Invalid []bool
 	// WantFirstErr is the index of the first invalid header, -1 if the whole batch is valid.
 	WantFirstErr int
+	// Orphan: the chain reader does not know the parent of Headers[0] (Known is empty). Headers[0] must be
+	// rejected; what happens to its successors (unknown grandparent) is only compared between batch and
+	// one-by-one verification, Invalid[i>0] is not meaningful.
+	Orphan bool
 }
 
 // Reader returns a fresh chain reader stub that knows c.Known.
@@ -268,6 +272,13 @@ func BatchCases() []BatchCase {
 					c.Name = fmt.Sprintf("%s@%d/n=%d/%s@%d", bc.net, bc.start, n, d.Name, i)
 					out = append(out, c)
 				}
+			}
+			if n <= 3 {
+				c := build(n, nil)
+				c.Name = fmt.Sprintf("%s@%d/n=%d/orphan", bc.net, bc.start, n)
+				c.Known, c.Orphan, c.WantFirstErr = nil, true, 0
+				c.Invalid[0] = true
+				out = append(out, c)
 			}
 			for i := 0; i < n; i++ {
 				for j := i + 1; j < n; j++ {
